@@ -18,6 +18,8 @@ def dispatch (j : Json) : Json :=
   | "simple" => runSimpleCase j
   | "post" => runPostCase j
   | "spec" | "specmut" => runSpecCase j
+  | "pathfuncs" => runPathFuncsCase j
+  | "swaggerschema" => Json.mkObj []
   | "conc" | "rexp" => Json.mkObj [("model", Json.str "theorems only: outcomes are compared with solo runs / Go regexp by the harness")]
   | f => Json.mkObj [("bad", Json.str s!"unknown family {f}")]
 
